@@ -26,6 +26,9 @@ REWRITES = [
   # an override whose replacement is a union WIDER than any union the key occurs in (every member of the replacement must reach the check)
   ('ov_wide', 'BeartypeConf(hint_overrides=FrozenDict({L0: Union[L0, L1, int, bytes]}))', [(r'\bL0\b', 'Union[L0, L1, int, bytes]')]),
   ('ov_wide_float', 'BeartypeConf(hint_overrides=FrozenDict({float: Union[float, str, bytes, L1, NT]}))', [(r'\bfloat\b', 'Union[float, str, bytes, L1, NT]')]),
+  # a replacement that CONTAINS its own key below a container ("a replacement is not rewritten again": L0 -> list[L0] means lists of L0, not lists of lists)
+  ('ov_rec_item', 'BeartypeConf(hint_overrides=FrozenDict({L0: list[L0]}))', [(r'\bL0\b', 'list[L0]')]),
+  ('ov_rec_value', 'BeartypeConf(hint_overrides=FrozenDict({float: dict[str, float]}))', [(r'\bfloat\b', 'dict[str, float]')]),
   ('viol_type', 'BeartypeConf(violation_type=ValueError)', []),
   ('viol_door_warn', 'BeartypeConf(violation_door_type=UserWarning, violation_param_type=UserWarning)', []),
 ]
